@@ -169,9 +169,8 @@ func (r *Reader) resolveHref(href string) string {
 		href = decoded
 	}
 
-	if r.baseDir == "" {
-		return href
-	}
+	// path.Join also removes "." and ".." segments; do that even when the OPF
+	// sits in the archive root so "./ch.xhtml" and "img/../ch.xhtml" are found.
 	return path.Join(r.baseDir, href)
 }
 
